@@ -254,12 +254,8 @@ func newOperator(expr parser.Expr, storage *engstore.SelectorPool, opts *query.O
 		case parser.ADD:
 			return next, nil
 		case parser.SUB:
-			op, err := unary.NewUnaryNegation(next, stepsBatch)
-			if err != nil {
-				return nil, err
-			}
 			// The Prometheus engine checks the whole result of a negation at once.
-			return exchange.NewDuplicateLabelCheck(op, true), nil
+			return unary.NewUnaryNegation(exchange.NewNameClashCheck(next), stepsBatch)
 		default:
 			// This shouldn't happen as Op was validated when parsing already
 			// https://github.com/prometheus/prometheus/blob/v2.38.0/promql/parser/parse.go#L573.
@@ -367,21 +363,59 @@ func remoteLabelSetsMustBeDistinct(c logicalplan.Coalesce) (check, acrossSteps b
 			}
 			root = paren.Expr
 		}
-		switch e := root.(type) {
-		case *parser.AggregateExpr:
+		if _, ok := root.(*parser.AggregateExpr); ok {
 			return false, false
-		case *parser.UnaryExpr:
-			return true, e.Op == parser.SUB
-		case *parser.Call:
-			for _, arg := range e.Args {
-				if _, ok := arg.(*parser.MatrixSelector); ok {
-					return true, true
-				}
-			}
 		}
-		return true, false
+		return true, checksWholeResult(root)
 	}
 	return false, false
+}
+
+// checksWholeResult reports whether evaluating expr, a chain of functions and
+// unary operators over one selector, involves a step that must not produce the
+// same label set twice in its whole result rather than in one evaluation step:
+// a function over a range vector that removes the metric name, or a negation of
+// an operand that still carries the metric names.
+func checksWholeResult(expr parser.Expr) bool {
+	switch e := expr.(type) {
+	case *parser.ParenExpr:
+		return checksWholeResult(e.Expr)
+	case *parser.StepInvariantExpr:
+		return checksWholeResult(e.Expr)
+	case *parser.UnaryExpr:
+		if e.Op == parser.SUB && keepsMetricName(e.Expr) {
+			return true
+		}
+		return checksWholeResult(e.Expr)
+	case *parser.Call:
+		for _, arg := range e.Args {
+			if _, ok := arg.(*parser.MatrixSelector); ok {
+				return e.Func.Name != "last_over_time"
+			}
+			if arg.Type() == parser.ValueTypeVector && checksWholeResult(arg) {
+				return true
+			}
+		}
+	}
+	return false
+}
+
+// keepsMetricName reports whether the series of expr, a chain of functions and
+// unary operators over one selector, carry their metric names.
+func keepsMetricName(expr parser.Expr) bool {
+	switch e := expr.(type) {
+	case *parser.ParenExpr:
+		return keepsMetricName(e.Expr)
+	case *parser.StepInvariantExpr:
+		return keepsMetricName(e.Expr)
+	case *parser.UnaryExpr:
+		return e.Op == parser.ADD && keepsMetricName(e.Expr)
+	case *parser.Call:
+		return e.Func.Name == "last_over_time"
+	case *parser.VectorSelector:
+		return true
+	}
+	return false
 }
 
 func unpackVectorSelector(t *parser.MatrixSelector) (*parser.VectorSelector, []*labels.Matcher, error) {
